@@ -692,10 +692,30 @@ def F21b():
     return f"member DECLARING 64 bytes whose stream expands to 512 MiB (archive bytes, status, peak RSS MiB): {out}" if bad else None
 
 
+def _demo_case(fid, path):
+    """findings whose failing input is a stand-alone demo (written by a hunting agent): exit 1 + 'FAIL ...' means the defect shows."""
+    def run():
+        r = subprocess.run([sys.executable, path], cwd=os.getcwd(), capture_output=True, text=True, timeout=600)
+        if r.returncode == 0:
+            return None
+        lines = [l for l in (r.stdout + r.stderr).splitlines() if l.strip() and "conda" not in l]
+        fail = [l for l in lines if l.startswith("FAIL")]
+        return (fail[0] if fail else (lines[-1] if lines else f"exit {r.returncode}"))[:300]
+    run.__name__ = fid
+    R[fid] = run
+
+
+_DEMOS = os.path.join(os.path.dirname(os.path.abspath(__file__)), "demos")
+if os.path.isdir(_DEMOS):
+    for _fn in sorted(os.listdir(_DEMOS)):
+        if _fn.endswith(".py"):
+            _demo_case(_fn[:-3], os.path.join(_DEMOS, _fn))
+
+
 if __name__ == "__main__":
     ids = sys.argv[1:]
     if ids == ["all"] or not ids:
-        ids = sorted(R, key=lambda s: int(s[1:]))
+        ids = sorted(R, key=lambda s: int(''.join(ch for ch in s[1:] if ch.isdigit()) or 0))
     rc = 0
     for i in ids:
         try:
